@@ -187,7 +187,7 @@ theorem canProgress_main_free {cfg : Cfg} {s : State} (hrf : cfg.refuse = [])
       (s' := { setHasher s i .begin_ with
                 main := if i + 1 < cfg.N then .startHasherChk (i + 1) else .startJanitorChk })
       (by simp [stepMain, hmain, hrf])
-      (isProgress_of_main (by simp only [hmain, setHasher]; split <;> simp))
+      (isProgress_of_main (by simp only [hmain]; split <;> simp))
   case startJanitorChk =>
     exact canProgress_of_main (s' := { s with main := .startJanitor }) (by simp [stepMain, hmain])
       (isProgress_of_main (by simp [hmain]))
